@@ -2,68 +2,93 @@
    Property statements only.  Model: Model/Interp.v (exact integers in a dyadic unit; a weight
    column = numerators w over one positive denominator d, i.e. weights w_i / d).
    impl_weights e xs x = the column of coordutil.getinterpweights(xs, nxs, extrapolate=e) for the
-   target point x;  impl_fdp / impl_conserve = sigma2coeff times layer thickness and the
-   'conserve' branch of interpSigma.
-   The weight theorems are proved for ascending sources of ANY length >= 2 and EVERY target
-   point; a descending source is sorted first by the model (as scipy does) — that reversal is
-   tied by the correspondence only, hence _partial. *)
-From PNC Require Import Base.Util Model.Interp Proofs.InterpProofs.
+   target point x;  impl_fdp = sigma2coeff times source layer thickness (the floor/ceil loop over
+   np.interp'ed edge indices);  impl_conserve = the 'conserve' branch of interpSigma.
+   mono xs = strictly ascending or strictly descending; lo_of / hi_of = its smallest / largest end.
+   All theorems hold for sources / grids of ANY length >= 2 in BOTH directions and EVERY target;
+   the only restriction left is the single-level source (C17_single_level_refuted, a known finding). *)
+From PNC Require Import Base.Util Model.Interp Proofs.InterpProofs Proofs.SigmaProofs.
 Local Open Scope Z_scope.
 
 (* weights sum to one for every target point (inside, outside, extrapolating or clipped), the
    denominator is positive, one weight per source level *)
-Theorem C17_weights_partition_of_unity_partial : forall e xs x w d,
-  asc xs = true -> (2 <= length xs)%nat ->
+Theorem C17_weights_partition_of_unity : forall e xs x w d,
+  mono xs -> (2 <= length xs)%nat ->
   impl_weights e xs x = Some (w, d) -> sumZ w = d /\ 0 < d /\ length w = length xs.
-Proof. exact weights_sum_one. Qed.
-Print Assumptions C17_weights_partition_of_unity_partial.
+Proof. exact weights_sum_one_both. Qed.
+Print Assumptions C17_weights_partition_of_unity.
 
 (* not extrapolating: no weight is negative, for every target point *)
-Theorem C17_weights_nonneg_partial : forall xs x w d,
-  asc xs = true -> (2 <= length xs)%nat ->
+Theorem C17_weights_nonneg : forall xs x w d,
+  mono xs -> (2 <= length xs)%nat ->
   impl_weights false xs x = Some (w, d) -> Forall (fun n => 0 <= n) w.
-Proof. exact weights_nonneg. Qed.
-Print Assumptions C17_weights_nonneg_partial.
+Proof. exact weights_nonneg_both. Qed.
+Print Assumptions C17_weights_nonneg.
 
 (* every linear profile a*x + b is reproduced exactly: sum_i (w_i/d) (a xs_i + b) = a x + b,
    for all x when extrapolating and for x inside the source range otherwise *)
-Theorem C17_weights_linear_exact_partial : forall e xs x w d a b,
-  asc xs = true -> (2 <= length xs)%nat ->
-  (e = true \/ hd 0 xs <= x <= last xs 0) ->
+Theorem C17_weights_linear_exact : forall e xs x w d a b,
+  mono xs -> (2 <= length xs)%nat ->
+  (e = true \/ lo_of xs <= x <= hi_of xs) ->
   impl_weights e xs x = Some (w, d) ->
   dot w (map (fun c => a * c + b) xs) = d * (a * x + b).
-Proof. exact weights_linear_exact. Qed.
-Print Assumptions C17_weights_linear_exact_partial.
+Proof. exact weights_linear_exact_both. Qed.
+Print Assumptions C17_weights_linear_exact.
 
 (* target coordinate = source coordinate: the k-th column is the k-th unit vector (W = I) *)
-Theorem C17_weights_identity_partial : forall e xs k w d,
-  asc xs = true -> (2 <= length xs)%nat -> (k < length xs)%nat ->
+Theorem C17_weights_identity : forall e xs k w d,
+  mono xs -> (2 <= length xs)%nat -> (k < length xs)%nat ->
   impl_weights e xs (nth k xs 0) = Some (w, d) -> w = unitv k (length xs) d /\ 0 < d.
-Proof. exact weights_identity. Qed.
-Print Assumptions C17_weights_identity_partial.
+Proof. exact weights_identity_both. Qed.
+Print Assumptions C17_weights_identity.
 
-(* conservative regridding leaves a constant field constant: for ANY coefficient matrix the
-   numerators are c times the normaliser, so nvals = c wherever the normaliser is non-zero *)
+(* sigma2coeff: the floor/ceil loop over interpolated edge indices yields, for every pair of
+   source layer and target layer, exactly (overlap length) / (source thickness) — for ALL
+   descending source and target edge lists, sharing ends or not *)
+Theorem C17_sigma2coeff_is_overlap : forall fr to,
+  desc fr = true -> desc to = true -> impl_fdp fr to = spec_fdp fr to.
+Proof. exact impl_fdp_overlap. Qed.
+Print Assumptions C17_sigma2coeff_is_overlap.
+
+(* grids sharing top and bottom: every source layer is fully distributed (rows of coeff sum to
+   one) and the normaliser of every target layer is its thickness *)
+Theorem C17_overlap_marginals : forall fr to,
+  desc fr = true -> desc to = true -> (2 <= length fr)%nat -> (2 <= length to)%nat ->
+  hd 0 fr = hd 0 to -> last fr 0 = last to 0 ->
+  map sumZ (impl_fdp fr to) = thick fr
+  /\ colsums (length (thick to)) (impl_fdp fr to) = thick to.
+Proof.
+  intros fr to Hf Ht Hlf Hlt Hh Hl. rewrite impl_fdp_overlap by auto. split.
+  - apply row_sums; auto. destruct to; [cbn in Hlt; lia | congruence].
+  - apply col_sums; auto. destruct fr; [cbn in Hlf; lia | congruence].
+Qed.
+Print Assumptions C17_overlap_marginals.
+
+(* conservative regridding between sigma grids that share top and bottom preserves the
+   thickness-weighted column integral, for every field v:  nvals[li] = num[li] / ndp[li] with
+   ndp = the (positive) target thicknesses, and sum_li num[li] = sum_lay v[lay] * dp_in[lay],
+   i.e. sum_li nvals[li] * dp_out[li] = sum_lay v[lay] * dp_in[lay] *)
+Theorem C17_column_mass_conserved : forall fr to v,
+  desc fr = true -> desc to = true -> (2 <= length fr)%nat -> (2 <= length to)%nat ->
+  hd 0 fr = hd 0 to -> last fr 0 = last to 0 -> length v = length (thick fr) ->
+  let r := impl_conserve (impl_fdp fr to) (length (thick to)) v in
+  snd r = thick to /\ Forall (fun t => 0 < t) (snd r) /\ sumZ (fst r) = dot v (thick fr).
+Proof. exact column_mass. Qed.
+Print Assumptions C17_column_mass_conserved.
+
+(* ... and leaves a constant field constant: for ANY coefficient matrix the numerators are c
+   times the normaliser, so nvals = c wherever the normaliser is non-zero *)
 Theorem C17_constant_preserved : forall c n (fdp : list (list Z)),
   fst (impl_conserve fdp n (repeat c (length fdp))) = map (Z.mul c) (snd (impl_conserve fdp n (repeat c (length fdp)))).
 Proof. intros. unfold impl_conserve. cbn [fst snd]. apply colsums_const. Qed.
 Print Assumptions C17_constant_preserved.
 
-(* column mass: the sum over target layers of nvals * normaliser equals the sum over source
-   layers of value * (row sum of fdp).  With the marginals of the overlap matrix (row sum =
-   source thickness, normaliser = target thickness: grids sharing top and bottom) this is
-   conservation of the thickness-weighted integral.
-   _partial: the marginals themselves are established per case by the correspondence
-   (Corr/C17.v: library coeff * thickness = overlap length), not by a theorem:
-   UNPROVED (believed true):
-     forall fr to, desc fr = true -> desc to = true -> hd 0 fr = hd 0 to -> last fr 0 = last to 0 ->
-       impl_fdp fr to = spec_fdp fr to
-       /\ map sumZ (spec_fdp fr to) = thick fr /\ colsums (length (thick to)) (spec_fdp fr to) = thick to. *)
-Theorem C17_column_mass_from_marginals_partial : forall n (fdp : list (list Z)) v,
+(* the matrix algebra behind conservation, for any rectangular coefficient matrix *)
+Theorem C17_column_mass_algebra : forall n (fdp : list (list Z)) v,
   Forall (fun r => length r = n) fdp -> length v = length fdp ->
   sumZ (fst (impl_conserve fdp n v)) = dot v (map sumZ fdp).
 Proof. intros. unfold impl_conserve. cbn [fst]. apply colsums_total; auto. Qed.
-Print Assumptions C17_column_mass_from_marginals_partial.
+Print Assumptions C17_column_mass_algebra.
 
 (* a single source level: the weights are NaN (None), not the identity *)
 Theorem C17_single_level_refuted : exists e xs x,
@@ -73,13 +98,16 @@ Print Assumptions C17_single_level_refuted.
 
 (* ---- non-vacuity ------------------------------------------------------------------------- *)
 Example C17_hyp_inhabited :
-  asc [1; 2; 4; 8] = true
+  asc [1; 2; 4; 8] = true /\ desc [8; 4; 2; 1] = true
   /\ impl_weights false [1; 2; 4; 8] 3 = Some ([0; 1; 1; 0], 2)
   /\ impl_weights false [1; 2; 4; 8] 10 = Some ([0; 0; 0; 6], 6)
   /\ impl_weights true [1; 2; 4; 8] 10 = Some ([0; 0; -2; 6], 4)
   /\ impl_weights false [8; 4; 2; 1] 3 = Some ([0; 1; 1; 0], 2)
+  /\ impl_weights true [8; 4; 2; 1] 10 = Some ([6; -2; 0; 0], 4)
+  /\ desc [8; 4; 2; 0] = true /\ desc [8; 6; 3; 0] = true
   /\ impl_fdp [8; 4; 2; 0] [8; 6; 3; 0] = [[2; 2; 0]; [0; 1; 1]; [0; 0; 2]]
   /\ spec_fdp [8; 4; 2; 0] [8; 6; 3; 0] = [[2; 2; 0]; [0; 1; 1]; [0; 0; 2]]
+  /\ thick [8; 4; 2; 0] = [4; 2; 2] /\ thick [8; 6; 3; 0] = [2; 3; 3]
   /\ impl_conserve [[2; 2; 0]; [0; 1; 1]; [0; 0; 2]] 3 [5; 7; 11] = ([10; 17; 29], [2; 3; 3])
   /\ sumZ [10; 17; 29] = dot [5; 7; 11] [4; 2; 2].
 Proof. vm_compute. repeat split; reflexivity. Qed.
